@@ -23,6 +23,9 @@ NOW = datetime.datetime(2024, 3, 1, 12, 0, 0)
 FMT = '%Y-%m-%dT%H:%M:%S'
 
 
+RULE += ' Since round 8: refused-removal (one removal fails with EROFS/EBUSY/EIO/EACCES/EPERM/ENOTEMPTY: that entry excused, all others judged by the rule, no traceback).'
+
+
 def gen(rng, n):
     scns, metas = [], []
     for i in range(n):
@@ -136,6 +139,8 @@ def judge(run, scn, meta, res, section='state'):
         ib, ia = engine.entries_of(before, e['td']).get(e['name']), engine.entries_of(after, e['td']).get(e['name'])
         if ib is None:
             continue
+        if meta.get('excused') and list(meta['excused']) == [e['td'], e['name']]:
+            continue                      # the file system refused a removal of this very entry (reported; C15 judges what is left of it)
         d = first_date(e['dates'])
         if days is None:
             must_go = True
@@ -150,6 +155,8 @@ def judge(run, scn, meta, res, section='state'):
                      key='kept-entry-purged', section=section)
         run.nontriv((days, rel, len(e['dates']), e['dates'][0][-3:] if e['dates'] else ''))
     for td, name in meta['orphans']:
+        if meta.get('excused') and list(meta['excused']) == [td, name]:
+            continue
         if engine.entries_of(after, td).get(name) is not None and days is None:
             run.fail('oracle', 'trash-empty without DAYS left a payload lacking a .trashinfo', dict(case, orphan=td + '/files/' + name),
                      key='orphan-not-purged', section=section)
@@ -171,6 +178,34 @@ def run(run, thorough):
         jobs.append(('decision', param, res['steps'][0], {'scenario': scn}))
     engine.run_monitors(run, 'decision-monitor', jobs, 'the decision monitor (Coq, C10) rejects the implementation trace: a path was removed that is '
                         'neither an old entry nor an orphan', 'unapproved-removal')
+    # the file system refuses ONE removal (read-only volume, busy, I/O error, permission ...): that entry is reported and excused, every
+    # other entry is still judged by the rule - in the same trash directory and in the ones visited afterwards
+    import copy, errno
+    refused, rmetas = [], []
+    for scn, res in out[:150 if not thorough else 1500]:
+        o = res['steps'][0]
+        rem = [t for t in o['trace'] if t[0] == 'remove' and len(t) > 3 and t[3] and t[1] and ('/files/' in str(t[1][0]) or '/info/' in str(t[1][0]))]
+        if len(rem) < 2:
+            continue
+        t = run.rng.choice(rem[:-1] if run.rng.random() < 0.7 else rem)
+        p = str(t[1][0])
+        td = p.split('/files/')[0] if '/files/' in p else p.split('/info/')[0]
+        name = os.path.basename(p)
+        if '/info/' in p and name.endswith('.trashinfo'):
+            name = name[:-10]
+        s = copy.deepcopy(scn)
+        s['steps'][0]['plan'] = {'fault': [t[3], run.rng.choice([errno.EROFS, errno.EBUSY, errno.EIO, errno.EACCES, errno.EPERM, errno.ENOTEMPTY])]}
+        m = dict(by_id[id(scn)], excused=[td, name])
+        s['judge_meta'] = dict(s.get('judge_meta') or {}, excused=[td, name])
+        refused.append(s)
+        rmetas.append(m)
+    outr = engine.run_all(run, 'empty-refused', refused)
+    by_id2 = {id(s): m for s, m in zip(refused, rmetas)}
+    for scn, res in outr:
+        judge(run, scn, by_id2[id(scn)], res, section='refused-removal')
+        if res['steps'][0].get('exc') is not None:
+            run.fail('oracle', 'trash-empty ended with an uncaught exception when the file system refused one removal: the remaining entries were not judged',
+                     {'scenario': scn, 'exc': res['steps'][0]['exc'], 'stderr': res['steps'][0]['stderr'][-300:]}, key='uncaught-exception', section='refused-removal')
     if out:
         run.sample({'level': 'state', 'argv': out[0][0]['steps'][0]['argv'], 'entries': metas[0]['ents'][:3]})
 
@@ -198,6 +233,10 @@ def replay(run, payload):
     a = [x for x in scn['steps'][0]['argv'] if x.isdigit()]
     jm = scn.get('judge_meta')
     if jm:
-        judge(run, scn, {'days': jm['days'], 'ents': jm['ents'], 'orphans': [tuple(x) for x in jm['orphans']], 'micro': jm.get('micro', 0)}, res)
+        judge(run, scn, {'days': jm['days'], 'ents': jm['ents'], 'orphans': [tuple(x) for x in jm['orphans']], 'micro': jm.get('micro', 0),
+                         'excused': jm.get('excused')}, res)
+        if jm.get('excused') and o.get('exc') is not None:
+            run.fail('oracle', 'trash-empty ended with an uncaught exception when the file system refused one removal', {'scenario': scn, 'exc': o['exc']},
+                     key='uncaught-exception', section='refused-removal')
         return
     judge(run, scn, {'days': int(a[0]) if a else None, 'ents': ents, 'orphans': []}, res)
